@@ -189,9 +189,118 @@ class InputNames(ChainBuild):
     aspects = ('edges',)
 
 
+ARGS_SRC = '''
+from taskchain import Task
+from taskchain.data import InMemoryData
+
+class Src(Task):
+    class Meta:
+        name = 'src'
+        data_class = InMemoryData
+    def run(self) -> str:
+        return 'src'
+
+class G1Src(Task):
+    class Meta:
+        name = 'src'
+        task_group = 'g1'
+        data_class = InMemoryData
+    def run(self) -> str:
+        return 'g1:src'
+
+class G2Src(Task):
+    class Meta:
+        name = 'src'
+        task_group = 'g2'
+        data_class = InMemoryData
+    def run(self) -> str:
+        return 'g2:src'
+
+class DeepSrc(Task):
+    class Meta:
+        name = 'src'
+        task_group = 'g1:h'
+        data_class = InMemoryData
+    def run(self) -> str:
+        return 'g1:h:src'
+'''
+
+
+class RunArguments(Suite):
+    """an argument of run names an input by its short form: it receives the input that the short form resolves to among
+    the task's inputs (the less nested one when it is the less nested form of all the others), an ambiguous short form
+    is an error, and neither depends on the order in which the inputs are declared.  Runtime check against the
+    component-wise reference resolution (ref_resolve) over the names of the inputs."""
+    name = 'run_arguments'
+    model = ''
+    INPUTS = ['src', 'g1:src', 'g2:src', 'g1:h:src']
+
+    def gen(self, rng, tier):
+        import itertools
+        out = []
+        for k in (1, 2, 3):
+            for combo in itertools.combinations(self.INPUTS, k):
+                for perm in itertools.permutations(combo):
+                    out.append(dict(inputs=list(perm), arg='src'))
+        return out
+
+    def run_impl(self, case):
+        import sys, types
+        from pathlib import Path
+        from taskchain import Config
+        from .. import pipeline as pl
+        with pl.workspace(dict(classes=[], files={})) as (d, _):
+            name = 'tcv_runargs'
+            m = types.ModuleType(name)
+            sys.modules[name] = m
+            try:
+                dep = ('class Dep(Task):\n    class Meta:\n        name = "dep"\n        data_class = InMemoryData\n'
+                       f'        input_tasks = {case["inputs"]!r}\n'
+                       f'    def run(self, {case["arg"]}) -> str:\n        return {case["arg"]}\n')
+                exec(compile(ARGS_SRC + dep, name, 'exec'), m.__dict__)
+                try:
+                    ch = Config(Path('data'), name='c', data={'tasks': [f'{name}.*']}).chain()
+                except Exception as e:
+                    return dict(build_error=f'{type(e).__name__}: {e}'[:200])
+                t = ch['dep']
+                try:
+                    via_registry = t.input_tasks[case['arg']].value
+                except Exception as e:
+                    via_registry = ['error', type(e).__name__]
+                try:
+                    value = t.value
+                except Exception as e:
+                    value = ['error', type(e).__name__]
+                return dict(value=value, via_registry=via_registry)
+            finally:
+                sys.modules.pop(name, None)
+
+    def oracle(self, case, obs):
+        if 'unexpected_exception' in obs:
+            return f'unexpected exception {obs["unexpected_exception"]}: {obs["text"]}'
+        if 'build_error' in obs:
+            return f'{case}: the chain cannot be built: {obs["build_error"]}'
+        found = ref_resolve(case['arg'], case['inputs'], True)
+        want = found if found is not None else 'error'
+        got = 'error' if isinstance(obs['value'], list) else obs['value']
+        reg = 'error' if isinstance(obs['via_registry'], list) else obs['via_registry']
+        if got != want:
+            return (f'{case}: run received {obs["value"]} for its argument `{case["arg"]}`; among the inputs {case["inputs"]} the short '
+                    f'form resolves to {want}')
+        if reg != want:
+            return f'{case}: input_tasks[{case["arg"]!r}] is {obs["via_registry"]}; the short form resolves to {want}'
+        return None
+
+    def nontrivial(self, case, obs):
+        return len(case['inputs']) >= 2
+
+    def key(self, case):
+        return repr(case)
+
+
 class C10(Prop):
     pid = 'C10'
-    suites = [Find(), InputNames()]
+    suites = [Find(), InputNames(), RunArguments()]
     trusted_base = ['UTF-8 argument: split on the ASCII separators gives the same pieces on bytes as on code points']
     assumptions = ['full names are well formed (non-empty components without ":") for the specification theorems; '
                    'the model itself is total on arbitrary text and is compared on malformed names too']
